@@ -47,7 +47,7 @@ func (r Rng) Address() string {
 }
 
 func (r Rng) Latin1Text(n int, ascii bool) string {
-	alpha := []rune("abcdefghij klmnopqrstuvwxyzABCXYZ0123456789.,:;-_/()'")
+	alpha := []rune("abcdefghij klmnopqrstuvwxyzABCXYZ0123456789.,:;-_/()'%%#&+=?!*")
 	if !ascii {
 		alpha = append(alpha, []rune("æøåÆØÅüßéèñÿ¿¡")...)
 	}
